@@ -195,6 +195,23 @@ fn emit_t(out: &mut Out, o: &JsonObject) {
 	}
 }
 
+/// `C17x <hex text>`: `TileJSON::try_from(&str)` on a text (document texts in canonical and free layout, damaged
+/// texts, JSON that is not an object)
+fn emit_x(out: &mut Out, text: &str) {
+	let line = format!("C17x {}", hex(text.as_bytes()));
+	let r = catch(|| TileJSON::try_from(text));
+	let ans = match &r {
+		Ok(Ok(t)) => show_tj(t),
+		Ok(Err(_)) => "err".into(),
+		Err(_) => "panic".into(),
+	};
+	out.case(&line, &ans, ans != "err");
+	out.count(&format!("tj_try_from_{}", ans.split(' ').next().unwrap()));
+	if r.is_err() {
+		out.oracle(false, "C17 tilejson: TileJSON::try_from panicked on a text", json!({"kind": "tj-text-panic"}), json!({"case": line}));
+	}
+}
+
 fn bbox_arg(b: &Option<[f64; 4]>) -> String {
 	match b {
 		None => "-".into(),
@@ -372,6 +389,10 @@ pub fn replay_line(out: &mut Out, line: &str) {
 			Some(o) => emit_t(out, &o),
 			None => out.notes.push(format!("unreadable replay line {line}")),
 		},
+		["C17x", h] => match String::from_utf8(unhex(h)) {
+			Ok(t) => emit_x(out, &t),
+			Err(_) => out.notes.push(format!("unreadable replay line {line}")),
+		},
 		["C17u", tr, b, z0, z1] => match (obj(tr), bb(b)) {
 			(Some(o), Some(b)) => emit_u(out, &o, b, zz(z0), zz(z1)),
 			_ => out.notes.push(format!("unreadable replay line {line}")),
@@ -392,10 +413,37 @@ pub fn run(args: &Args, out: &mut Out, rng: &mut Rng) {
 			emit_t(out, &JsonObject(BTreeMap::from([(k.to_string(), v)])));
 		}
 	}
+	// byte range of generic numbers, center zoom and layer zooms: the literals 0 / 255 and their neighbours
+	for x in [-1.0, -0.0, 0.0, 0.5, 1.0, 30.0, 31.0, 254.0, 254.5, 255.0, 255.000001, 255.5, 256.0, 257.0, 1e3, 65535.0, 65536.0, 4294967295.0, 1e300] {
+		emit_t(out, &JsonObject(BTreeMap::from([("minzoom".to_string(), num(x))])));
+		emit_t(out, &JsonObject(BTreeMap::from([("maxzoom".to_string(), num(x)), ("q".to_string(), num(x))])));
+		emit_t(out, &JsonObject(BTreeMap::from([("center".to_string(), JsonValue::Array(JsonArray(vec![num(1.0), num(2.0), num(x)])))])));
+		let layer = JsonValue::Object(JsonObject(BTreeMap::from([("id".to_string(), s("l")), ("minzoom".to_string(), num(x)), ("maxzoom".to_string(), num(x))])));
+		emit_t(out, &JsonObject(BTreeMap::from([("vector_layers".to_string(), JsonValue::Array(JsonArray(vec![layer])))])));
+		for z in [0u8, 1, 30, 31, 254, 255] {
+			let o = JsonObject(BTreeMap::from([("minzoom".to_string(), num(x)), ("maxzoom".to_string(), num(x))]));
+			emit_u(out, &o, None, Some(z), Some(z));
+		}
+	}
+	for t in ["", "{}", " { } ", "[]", "null", "1", "\"x\"", "{\"a\":1", "{\"bounds\":[1,2,3,4],\"bounds\":[5,6,7,8]}", "{\"a\":\"x\",\"a\":\"y\"}", "\u{feff}{}", "{\"a\":{}}", "{\"a\":null}", "{\"tilejson\":\"2.0.0\"}", "{\"tilejson\":7}", "{}x", "{\"vector_layers\":[{\"id\":\"a\"},{\"id\":\"a\",\"fields\":{\"f\":\"g\"}}]}"] {
+		emit_x(out, t);
+	}
 	let n = args.n(1500, 20000);
 	for i in 0..n {
 		let o = gen_doc_object(rng, i % 3 == 2);
 		emit_t(out, &o);
+		if i % 3 == 0 {
+			// the text level: canonical text, free layout, damaged
+			let v = JsonValue::Object(o.clone());
+			emit_x(out, &v.stringify());
+			let mut free = String::new();
+			super::variant_text(rng, &v, &mut free);
+			emit_x(out, &free);
+			let m = super::mutate(rng, free.as_bytes());
+			if let Ok(ms) = String::from_utf8(m) {
+				emit_x(out, &ms);
+			}
+		}
 		if i % 3 != 2 {
 			let bbox = if rng.chance(4, 5) { Some(gen_bbox(rng)).filter(|b| b.iter().all(|x| *x != 0.0 || x.is_sign_positive())) } else { None };
 			let zmin = if rng.chance(4, 5) { Some(rng.below(20) as u8) } else { None };
@@ -404,7 +452,10 @@ pub fn run(args: &Args, out: &mut Out, rng: &mut Rng) {
 			pyramid_oracle(out, rng, &o);
 			if i % 6 == 0 {
 				let o2 = gen_doc_object(rng, false);
+				// several sources merged, in both orders, and a third one on top
 				emit_m(out, &o, &o2);
+				emit_m(out, &o2, &o);
+				emit_m(out, &o, &o);
 			}
 		}
 	}
